@@ -202,9 +202,10 @@ prop("C15", NEC + "Clauses: legend order = enum discriminants (T6); token positi
 prop("C16", NEC + "Clauses: every token slice / node pair that drives the position classification is in one frame (FRAME "
      "in completion.rs); variables are proposed from the LookupTable of the procedure that contains the cursor (SCOPE-ORDER); "
      "search_* keep exactly the entry kinds they are named after, from the right table (KIND-FILTER); proposal lists are concatenated, "
-     "never merged by label or pruned (NO-MERGE: a variable and a procedure may share a name)." + PARSER_REF,
+     "never merged by label or pruned (NO-MERGE: a variable and a procedure may share a name); the token that classifies the position and "
+     "the statement the cursor is located in are determined without the comments in front of the cursor / statement (POSITION-TOKEN)." + PARSER_REF,
      [{"rule": "FRAME", "filter": files("completion.rs"), "floor": 18}, {"rule": "SCOPE-ORDER", "filter": both(feat("completion"), nottag("typescope", "semantic")), "floor": 5},
-      {"rule": "KIND-FILTER", "floor": 7}, {"rule": "NO-MERGE", "floor": 24},
+      {"rule": "KIND-FILTER", "floor": 7}, {"rule": "NO-MERGE", "floor": 24}, {"rule": "POSITION-TOKEN", "floor": 3},
       {"rule": "CURSOR-CMP", "filter": both(feat("completion"), lambda i: "DocumentCursor::ident" not in i.key), "floor": 0},
       {"rule": "FRAME", "filter": files("parser.rs", "utility.rs"), "floor": 3}])
 
